@@ -39,8 +39,11 @@ BindAddr(s, oa, sa) ==
     IF oa \in DOMAIN s.a THEN (IF s.a[oa] = sa THEN s ELSE Fail(s, "object identity differs"))
     ELSE IF sa \in Range(s.a) THEN Fail(s, "object identity differs (aliasing)")
     ELSE [s EXCEPT !.a = FnPut(@, oa, sa)]
+\* An observed closure object may stand for several specified closures (an implementation may hand out the same callable
+\* again when a lambda node is evaluated again - closures are immutable, no property speaks of their identity): the
+\* binding then follows the most recent one.  What the closure DOES is checked by the events of its calls.
 BindLam(s, ol, sl) ==
-    IF ol \in DOMAIN s.l THEN (IF s.l[ol] = sl THEN s ELSE Fail(s, "closure identity differs"))
+    IF ol \in DOMAIN s.l THEN (IF s.l[ol] = sl THEN s ELSE [s EXCEPT !.l[ol] = sl])
     ELSE IF sl \in Range(s.l) THEN Fail(s, "closure identity differs (aliasing)")
     ELSE [s EXCEPT !.l = FnPut(@, ol, sl)]
 
